@@ -587,6 +587,10 @@ pub trait Prop: Sync {
   fn run(&self, env: &Env, task: &str, shard: usize, nshards: usize, out: &mut Out);
   /// evaluate one concrete case of sub-check `sub` (used by generators and by replay)
   fn eval(&self, env: &Env, out: &mut Out, sub: &str, case: &Case);
+  /// auxiliary child-process entry points (e.g. "run this history in a fresh process")
+  fn aux(&self, _env: &Env, _name: &str, _arg: &str) -> i32 {
+    2
+  }
 }
 
 // ---------------------------------------------------------------- parent: spawn workers, merge, report
